@@ -21,6 +21,7 @@ EXPLANATION = (
     "the directory listing or _contains_job_id."
     ' Also: candidates for an abbreviated id are exactly the listed ids with that prefix (comprehension form, or a bisection range whose bounds are decided), and no mutable object bound in a class body is modified through an instance (C08-e).'
     ' The listing does not treat symbolic links differently from the membership test; the directory test establishes a job only for a full-length id.'
+    " (j) `_directory_known` is asserted only where the existence of the directory was established - the constructor takes it from its caller, init() sets it after its test / creation, every other write clears it or sits behind the success of the operation that created the directory (C02-j); (k) the command line keeps 'unknown id' (KeyError) apart from 'ambiguous prefix' (LookupError) by exception type (C02-k)."
 )
 UNDECIDED = ("Type-exact round trip through the file, prefix resolution for every collision pattern and the KeyError / "
              "LookupError choice for every id are value-level and not decided.")
